@@ -436,6 +436,14 @@ def mapPath : Path → (Val → Val) → Val → Option Val
   | .D :: r, f, .pair a b => (mapPath r f b).map (.pair a ·)
   | _ :: _, _, _ => none
 
+/-- the test `{EQ,…}` makes of the result of `COMPARE` -/
+def opTest (op : List Char) (i : Int) : Bool :=
+  if op = ['E', 'Q'] then i == 0 else if op = ['N', 'E', 'Q'] then i != 0 else if op = ['L', 'T'] then i < 0
+  else if op = ['G', 'T'] then i > 0 else if op = ['L', 'E'] then i ≤ 0 else i ≥ 0
+
+/-- the result of `COMPARE` on ints -/
+def cmpInt (a b : Int) : Int := if a < b then -1 else if a = b then 0 else 1
+
 def fixedNames : List (List Char) :=
   ["FAIL".toList, "ASSERT".toList, "ASSERT_NONE".toList, "ASSERT_SOME".toList, "ASSERT_LEFT".toList,
    "ASSERT_RIGHT".toList, "IF_SOME".toList, "IF_RIGHT".toList]
